@@ -681,6 +681,17 @@ func (c *Compiler) ExpandModules() (err error) {
 		}
 	}
 
+	// Check every must, when and leafref path expression, including those
+	// in groupings and typedefs that nothing uses
+	if !c.skipUnknown {
+		for _, module := range c.modules {
+			c.validateXpathWalk(module.GetModule())
+			for _, sm := range module.GetSubmodules() {
+				c.validateXpathWalk(sm)
+			}
+		}
+	}
+
 	// Check for typedefs defined in terms of themselves before any type
 	// is built
 	for _, module := range c.modules {
@@ -713,6 +724,37 @@ func (c *Compiler) ExpandModules() (err error) {
 	}
 
 	return nil
+}
+
+// validateXpathWalk compiles every must, when and leafref path expression
+// below n, so that a syntax error or an unknown prefix is reported even when
+// the statement sits in a grouping or typedef that is never used (used ones
+// are compiled again, and kept, when the schema nodes are built).
+func (c *Compiler) validateXpathWalk(n parse.Node) {
+	for _, ch := range n.Children() {
+		if ch.Type() == parse.NodeDeviation {
+			// A must named by 'deviate delete' only has to match the
+			// text of an existing one
+			continue
+		}
+		stmt := ch
+		mapFn := func(prefix string) (string, error) {
+			return stmt.YangPrefixToNamespace(prefix, c.modules, c.skipUnknown)
+		}
+		var err error
+		switch ch.Type() {
+		case parse.NodeMust:
+			_, err = expr.NewExprMachine(ch.ArgMust(), mapFn)
+		case parse.NodeWhen:
+			_, err = expr.NewExprMachine(ch.ArgWhen(), mapFn)
+		case parse.NodePath:
+			_, err = leafref.NewLeafrefMachine(ch.ArgPath(), mapFn)
+		}
+		if err != nil {
+			c.error(n, err)
+		}
+		c.validateXpathWalk(ch)
+	}
 }
 
 // validateTypedefsWalk checks every typedef at or below n for a cycle.
